@@ -189,7 +189,11 @@ class ProgressivelyTerminalDecider(BaseDecider):
                 # never zero: a zero heuristic would wipe out the declared weight of the deepest production
                 return max(1, target - self.grammar.get_distance_to_terminal(n))
 
-        weights = [w(alt) * self.grammar.get_weights().get(alt, 1.0) for alt in alternatives]
+        declared = [self.grammar.get_weights().get(alt, 1.0) for alt in alternatives]
+        weights = [w(alt) * d for alt, d in zip(alternatives, declared)]
+        if not any(weights):
+            # the depth heuristic ruled everything out: decide by the declared weights alone
+            weights = declared
         return self.random.choice_weighted(alternatives, weights)
 
 
